@@ -307,8 +307,20 @@ def run_history(ctx, seed, idx):
             tok = 'tokS%d' % serial
             ctx.count('bodyless_messages')
         raw = RM.build(mtype, serial, fields, sig, body, r.random() < 0.7, flags)
+        little_ = raw[0:1] == b'l'
         hist.append([op, a, RM.TYPE_NAMES[mtype], dest, tok, forged, flags, sig])
-        ca.send_raw(raw)
+        if r.random() < 0.3:
+            # the same read also carries, in front, a call to the bus itself in the OTHER byte order (a connection may mix
+            # byte orders, and what it writes back to back arrives in one read)
+            filler = RM.build(RM.METHOD_CALL, ca.next_serial(), {'path': '/org/freedesktop/DBus', 'member': 'GetId',
+                                                                 'interface': BUS, 'destination': BUS}, '', [],
+                              not little_, RM.NO_REPLY_EXPECTED)
+            hist[-1].append('behind a %s-endian call to the bus in the same read' % ('big' if little_ else 'little'))
+            ctx.count('mixed_byte_orders_in_one_read')
+            raw_sent = filler + raw
+        else:
+            raw_sent = raw
+        ca.send_raw(raw_sent)
         if w_.net.crashes():
             w['crash'] = repr(w_.net.crashes()[0])
             ctx.report(classify_crash(w_.net.crashes()[0], fields), 'bus-side connection of client %d crashed with %r while '
